@@ -1,4 +1,5 @@
 import Sml.Props.C17
+import Sml.Lemmas.C17Bytes
 /- Axiom audit for property C17: only propext / Classical.choice / Quot.sound may appear. -/
 #print axioms Sml.C17.tiling
 #print axioms Sml.C17.tiling_ok
@@ -7,3 +8,10 @@ import Sml.Props.C17
 #print axioms Sml.C17.reset_after_frame
 #print axioms Sml.C17.frame_tile
 #print axioms Sml.C17.io_error_count
+#print axioms Sml.C17.discarded_at_start
+#print axioms Sml.C17.tile_boundaries
+#print axioms Sml.C17.noise_tile_no_start
+#print axioms Sml.C17.rejected_tile_is_frame_start
+#print axioms Sml.C17.delivered_tile
+#print axioms Sml.C17.leftover
+#print axioms Sml.C17.tiling_anchored
